@@ -139,3 +139,52 @@ Theorem C09_example :
   = Some ([Some (1 # 3); Some (1 # 3)], [Some (2 # 1); Some (3 # 1)])%Q.
 Proof. exact c09_example. Qed.
 Print Assumptions C09_example.
+
+(* ---- source tie: the functions of the hand model used above EQUAL the Gallina functions that
+   tools/py2coq/gen_histogram.py regenerates from the current src/sparkx/Histogram.py on every run
+   (Gen/GenHistogram.v; numpy vocabulary Lib/HistRt.v).  [of_vals]/[of_wts]/[of_scl] inject the model's argument
+   forms into None | number | list.  The hypotheses are consequences of [Shape h]. *)
+From SX Require Import Lib.HistRt Gen.GenHistogram Proofs.C09_Source.
+
+Theorem C09_source_init_tuple :
+  forall ul lo hi b n, init_tuple ul lo hi b n = gen_init_tuple ul lo hi b n.
+Proof. exact source_init_tuple. Qed.
+Print Assumptions C09_source_init_tuple.
+
+Theorem C09_source_init_list : forall es, init_list es = gen_init_list es.
+Proof. exact source_init_list. Qed.
+Print Assumptions C09_source_init_list.
+
+Theorem C09_source_add_value :
+  forall h v w, edges h <> [] -> add_value h v w = gen_add_value h (of_vals v) (of_wts w).
+Proof. exact source_add_value. Qed.
+Print Assumptions C09_source_add_value.
+
+Theorem C09_source_scale_histogram :
+  forall h s, scale_histogram h s = gen_scale_histogram h (of_scl s).
+Proof. exact source_scale_histogram. Qed.
+Print Assumptions C09_source_scale_histogram.
+
+Theorem C09_source_statistical_error :
+  forall usqrt h, (exists erows, hERR h = A2 erows) -> statistical_error usqrt h = gen_statistical_error usqrt h.
+Proof. exact source_statistical_error. Qed.
+Print Assumptions C09_source_statistical_error.
+
+Theorem C09_source_make_density :
+  forall usqrt h, (exists erows, hERR h = A2 erows) -> make_density usqrt h = gen_make_density usqrt h.
+Proof. exact source_make_density. Qed.
+Print Assumptions C09_source_make_density.
+
+Theorem C09_source_bin_width : forall h, gen_bin_width h = Ok (widths (edges h)).
+Proof. exact source_bin_width. Qed.
+Print Assumptions C09_source_bin_width.
+
+Theorem C09_source_bin_centers : forall h, gen_bin_centers h = Ok (centers (edges h)).
+Proof. exact source_bin_centers. Qed.
+Print Assumptions C09_source_bin_centers.
+
+Theorem C09_source_bounds :
+  forall h, gen_bin_bounds_left h = Ok (bounds_left (edges h)) /\ gen_bin_bounds_right h = Ok (bounds_right (edges h))
+            /\ gen_bin_boundaries h = Ok (edges h) /\ gen_histogram h = Ok (hH h).
+Proof. exact source_bounds. Qed.
+Print Assumptions C09_source_bounds.
